@@ -122,6 +122,9 @@ class Z3T:
         if s.name not in self.vars:
             v = z3.Real(s.name)
             self.vars[s.name] = v
+            if s.name == 'PI_const':
+                self.side.append(v > z3.RealVal('3.14159265358979'))
+                self.side.append(v < z3.RealVal('3.14159265358980'))
             if s.is_positive:
                 self.side.append(v > 0)
             elif s.is_nonnegative:
